@@ -180,12 +180,12 @@ SERIAL_FNS = ["lemma_pool_bytes_is_pf", "StringRef::write", "ColumnType::write_v
 PROPS["C01"]["verus"]["serial"] = SERIAL_FNS
 PROPS["C08"]["verus"]["serial"] = SERIAL_FNS
 
-PROPS["C10"]["verus"]["readers"] = ["vx_read_whole", "PropertyValue::read", "PropertySet::read", "PropertyValue::minimum_version", "Timestamp::read_from",
+PROPS["C10"]["verus"]["readers"] = ["vx_read_whole", "SummaryInfo::read", "PropertySet::format_identifier", "PropertyValue::read", "PropertySet::read", "PropertyValue::minimum_version", "Timestamp::read_from",
                                     "lemma_pv_pair", "lemma_pv_pair_small", "lemma_pv_pair_i1", "lemma_pv_pair_i2", "lemma_pv_pair_str", "lemma_lpstr_layout", "lemma_pv_pair_time", "lemma_le32_rt", "lemma_le16_rt", "lemma_u64_halves", "lemma_i16_rt", "lemma_i32_rt", "lemma_i8_rt"]
 PROPS["C19"]["verus"]["queryfmt"] = ["Delete::fmt", "Insert::fmt", "Update::fmt", "Join::fmt", "Select::format_for_join", "Select::fmt"]
 PROPS["C07"]["verus"]["category"] = ["Category::validate", "lemma_blen_nonneg", "lemma_blen_empty", "lemma_blen_ends", "lemma_last_of"]
 PROPS["C10"]["verus"]["propset"] = SUMMARY_FNS + ["lemma_in_step_set_codepage", "lemma_in_step_insert", "lemma_in_step_remove",
-                                              "SummaryInfo::uuid", "SummaryInfo::set_uuid", "SummaryInfo::clear_uuid", "lemma_uuid_after_set"]
+                                              "PropertySet::new", "SummaryInfo::new", "SummaryInfo::uuid", "SummaryInfo::set_uuid", "SummaryInfo::clear_uuid", "lemma_uuid_after_set"]
 PROPS["C10"]["verus"]["pspair"] = ["theorem_save_reopen", "lemma_ps_pair", "lemma_ps_cp", "lemma_ps_entry", "lemma_ps_header", "lemma_tab_at",
                                    "lemma_le32_at", "lemma_es_upto_mono", "lemma_in_step_entries", "lemma_read_in_step", "lemma_written_witness", "lemma_pair_witness",
                                    "lemma_pv_pair", "lemma_pv_pair_small", "lemma_pv_pair_i1", "lemma_pv_pair_i2", "lemma_pv_pair_str", "lemma_lpstr_layout", "lemma_pv_pair_time"]
